@@ -536,6 +536,17 @@ class Hessdiag(Derivative):
         options.pop('n', None)
         super(Hessdiag, self).__init__(f, step=step, method=method, n=2, order=order, **options)
 
+    def _get_functions(self, args, kwds):
+        diff, fun = super(Hessdiag, self)._get_functions(args, kwds)
+
+        def scalar_fun(x):
+            f_x = fun(x)
+            if isinstance(f_x, np.ndarray) and f_x.size == 1:
+                return f_x.reshape(())  # allow functions returning arrays with one element
+            return f_x
+
+        return diff, scalar_fun
+
     def __call__(self, x, *args, **kwds):
         return super(Hessdiag, self).__call__(np.atleast_1d(x), *args, **kwds)
 
